@@ -11,6 +11,7 @@ func init() {
 	verifHarnesses["HarnessC17Seq"] = HarnessC17Seq
 	verifHarnesses["HarnessC17Conc"] = HarnessC17Conc
 	verifHarnesses["HarnessC17Args"] = HarnessC17Args
+	verifHarnesses["HarnessC17CloseFault"] = HarnessC17CloseFault
 }
 
 var c17Rows = []drvRow{{"a": "x", "b": "p"}, {"a": "y"}, {"a": "x"}}
@@ -264,5 +265,42 @@ func HarnessC17Args() {
 	verifRaceFree("C17: queries with arguments on handles of one data source share state")
 	verifAssert(c1.Close() == nil && c2.Close() == nil, "C17: Close failed")
 	verifAssert(!verifFlockHeld(p1) && !verifFlockHeld(p2), "C17: a file stays locked after its last handle was closed")
+	verifReach("end")
+}
+
+// HarnessC17CloseFault: releasing the file lock fails while the last handle of a data source is
+// closed (Close reports an error; the operating system releases the file all the same). The
+// data source must stay usable: a handle opened afterwards answers from the file, is not the
+// closed connection, and the file is released when that handle is closed.
+func HarnessC17CloseFault() {
+	p1 := verifTempPath("c17f.updog")
+	drvBuild(p1, c17Rows)
+	dsn := "file:" + p1
+	d := newUpdogDriver()
+	nh := 1 + verifChoice("handles", 2)
+	var hs []*fileConn
+	for i := 0; i < nh; i++ {
+		c, err := drvOpen(d, dsn)
+		verifAssert(err == nil, "C17: opening a handle failed")
+		if err != nil {
+			return
+		}
+		hs = append(hs, c)
+	}
+	c17QueryRows("C17 before the failing Close", hs[0], 0, c17Rows)
+	for i := 0; i < nh-1; i++ {
+		verifAssert(hs[i].Close() == nil, "C17: Close failed")
+	}
+	verifBoltCloseFault(p1)
+	_ = hs[nh-1].Close() // may report the unlock error
+	verifAssert(!verifFlockHeld(p1), "C17: a file stays locked after its last handle was closed")
+	c, err := drvOpen(d, dsn)
+	verifAssert(err == nil, "C17: a data source cannot be opened again after a Close that reported an error")
+	if err != nil {
+		return
+	}
+	c17QueryRows("C17 after a Close that reported an error", c, 0, c17Rows)
+	verifAssert(c.Close() == nil, "C17: Close failed")
+	verifAssert(!verifFlockHeld(p1), "C17: a file stays locked after its last handle was closed")
 	verifReach("end")
 }
